@@ -4,9 +4,25 @@ quick check of its property (and of the extra properties listed in seeded/EXTRA.
 caught/missed + failure kind in seeded/RESULTS.json.  Evidence files are saved and restored around every run."""
 import json, os, shutil, subprocess, sys, glob
 
-V = '/verif'
-names = sys.argv[1:] or sorted(os.path.basename(d) for d in glob.glob(f'{V}/seeded/C*-*'))
-rp = f'{V}/seeded/RESULTS.json'
+# `--lane DIR`: run in a scratch workspace made by tools/mkworkspace.sh (DIR/verif + DIR/repo) so that several lanes can run
+# in parallel; results go to DIR/results.json (merge them into seeded/RESULTS.json with `--merge DIR...`)
+V, REPO = '/verif', '/repo'
+args = sys.argv[1:]
+if args and args[0] == '--merge':
+    rp = f'{V}/seeded/RESULTS.json'
+    res = json.load(open(rp)) if os.path.exists(rp) else {}
+    for d in args[1:]:
+        res.update(json.load(open(f'{d}/results.json')))
+    json.dump(res, open(rp, 'w'), indent=1, sort_keys=True)
+    print(len(res), 'results')
+    sys.exit(0)
+lane = None
+if args and args[0] == '--lane':
+    lane = args[1]
+    args = args[2:]
+    V, REPO = f'{lane}/verif', f'{lane}/repo'
+names = args or sorted(os.path.basename(d) for d in glob.glob(f'{V}/seeded/C*-*'))
+rp = f'{lane}/results.json' if lane else f'{V}/seeded/RESULTS.json'
 res = json.load(open(rp)) if os.path.exists(rp) else {}
 extra = json.load(open(f'{V}/seeded/EXTRA.json')) if os.path.exists(f'{V}/seeded/EXTRA.json') else {}
 
@@ -26,17 +42,17 @@ def run_check(pr):
             os.remove(ev)
 
 
-dirty = subprocess.run(['git', '-C', '/repo', 'status', '--porcelain'], capture_output=True, text=True).stdout.strip()
+dirty = subprocess.run(['git', '-C', REPO, 'status', '--porcelain'], capture_output=True, text=True).stdout.strip()
 if dirty:
-    print('/repo is not clean; refusing to run'); sys.exit(2)
+    print(REPO + ' is not clean; refusing to run'); sys.exit(2)
 for n in names:
     d = f'{V}/seeded/{n}'
     pf = f'{d}/patch.diff'
     prop = n.split('-')[0]
-    if subprocess.run(['git', '-C', '/repo', 'apply', '--check', pf], capture_output=True).returncode != 0:
+    if subprocess.run(['git', '-C', REPO, 'apply', '--check', pf], capture_output=True).returncode != 0:
         res[n] = {'result': 'patch does not apply to the current /repo'}
         print(n, res[n]); continue
-    subprocess.run(['git', '-C', '/repo', 'apply', pf], check=True)
+    subprocess.run(['git', '-C', REPO, 'apply', pf], check=True)
     try:
         r = {'result': 'MISSED'}
         for pr in [prop] + extra.get(n, []):
@@ -56,6 +72,6 @@ for n in names:
         res[n] = r
         print(n, r, flush=True)
     finally:
-        subprocess.run(['git', '-C', '/repo', 'checkout', '--', '.'])
-        subprocess.run(['git', '-C', '/repo', 'clean', '-fdq'])
+        subprocess.run(['git', '-C', REPO, 'checkout', '--', '.'])
+        subprocess.run(['git', '-C', REPO, 'clean', '-fdq'])
     json.dump(res, open(rp, 'w'), indent=1, sort_keys=True)
